@@ -185,7 +185,15 @@ type c10Tx struct {
 	Ins     []string `json:"inputs"`
 	Flags   int      `json:"flags"`
 	Geom    string   `json:"geometry"` // big (36000 bytes x 10), tiny (1 byte x 1), two (2 bytes x 2)
+	// Route: how the filter object comes to hold the message.  "" = LoadFilter(msg); "nil+reload" =
+	// LoadFilter(nil) then Reload(msg) (how a node installs a peer's filterload); "other+reload" =
+	// LoadFilter of ANOTHER message (other flags, other contents, other geometry) then Reload(msg);
+	// "new+reload" = NewFilter(...) with other flags then Reload(msg).  What the object does is a
+	// function of the message it holds now.
+	Route string `json:"route,omitempty"`
 }
+
+var c10Routes = []string{"", "nil+reload", "other+reload", "new+reload"}
 
 func c10Geom(g string) (int, uint32) {
 	switch g {
@@ -240,7 +248,24 @@ func c10EvalTx(w *mc.W, cas c10Tx) {
 		model.Insert(ref.OutPointBytes(chainhash.Hash{}, 0xffffffff))
 	}
 	msg := wire.NewMsgFilterLoad(model.Bytes(), k, 0x5eed, wire.BloomUpdateType(cas.Flags))
-	f := bloom.LoadFilter(msg)
+	var f *bloom.Filter
+	otherFlags := wire.BloomUpdateType((cas.Flags + 1) % 3)
+	switch cas.Route {
+	case "":
+		f = bloom.LoadFilter(msg)
+	case "nil+reload":
+		f = bloom.LoadFilter(nil)
+		f.Reload(msg)
+	case "other+reload":
+		f = bloom.LoadFilter(wire.NewMsgFilterLoad([]byte{0xff, 0x0f, 0xf0}, 3, 99, otherFlags))
+		f.Reload(msg)
+	case "new+reload":
+		f = bloom.NewFilter(10, 1, 0.01, otherFlags)
+		f.Add(c10K1)
+		f.Reload(msg)
+	default:
+		panic("c10: unknown route " + cas.Route)
+	}
 	var got bool
 	if m, p := mc.Guard(func() { got = f.MatchTxAndUpdate(bchutil.NewTx(tx)) }); p {
 		c.Violate("matchtxandupdate-panics", "tx", cas, m)
@@ -596,20 +621,23 @@ func runC10(c *mc.Ctx) {
 	if c.Thorough() {
 		geoms = append(geoms, "big")
 	}
-	dims := []int{len(contents), len(outsets), len(insets), 4, len(geoms)}
+	dims := []int{len(contents), len(outsets), len(insets), 4, len(geoms), len(c10Routes)}
 	total := int64(1)
 	for _, d := range dims {
 		total *= int64(d)
 	}
-	c.Space("single transactions: content x outputs x inputs x flags x geometry", total)
+	c.Space("single transactions: content x outputs x inputs x flags x geometry x route by which the filter object received the message (the three Reload routes on the first geometry)", total/int64(len(geoms)*len(c10Routes))*int64(len(geoms)+len(c10Routes)-1))
 	c.ParFor(total, func(w *mc.W, i int64) {
 		idx := make([]int, len(dims))
 		for k := len(dims) - 1; k >= 0; k-- {
 			idx[k] = int(i % int64(dims[k]))
 			i /= int64(dims[k])
 		}
+		if idx[5] != 0 && idx[4] != 0 {
+			return // the other routes on the first geometry only
+		}
 		w.State()
-		c10EvalTx(w, c10Tx{Content: contents[idx[0]], Outs: outsets[idx[1]], Ins: insets[idx[2]], Flags: idx[3], Geom: geoms[idx[4]]})
+		c10EvalTx(w, c10Tx{Content: contents[idx[0]], Outs: outsets[idx[1]], Ins: insets[idx[2]], Flags: idx[3], Geom: geoms[idx[4]], Route: c10Routes[idx[5]]})
 	})
 	// wide transactions: n outputs of which only one (at an index beyond 8 / 16 bits) pays the watched
 	// key; result and final filter (the inserted outpoint carries the output index) against the reference
